@@ -80,7 +80,7 @@ func runC13(c *core.Case) *core.Result {
 	}
 	defer w.close()
 	r := c.Rng
-	key := "k"
+	key := fmt.Sprintf("k%d-%d", c.Index, r.Intn(1<<30)) // racing entries must meet a lock name the process has never seen
 	newClient := func(alias string) *bed.Client {
 		cl := w.b.NewClient("colA", alias)
 		w.cls = append(w.cls, cl)
